@@ -66,6 +66,42 @@ chk('C16', 'model_checking',
     'symbolic execution (CrossHair+z3) of real protocol code with symbolic crash point over a model file system',
     'DESIGN.md section 3 C16', 'E3')
 
+chk('C01', 'translation_validation',
+    'Every control stream of the repository corpus that this environment can read plus a generated family (precedence '
+    'and associativity forms, all intrinsic/protected functions, all relational/logical spellings, logical and block '
+    'IF templates, ADVAN1-4/10-12 x TRANS1-6 with S/SC/ALAG/F variants, ADVAN5/7, $DES, $ERROR forms, '
+    '$THETA/$OMEGA/$SIGMA forms) is read by pharmpy and interpreted by an independent reference semantics of '
+    'NM-TRAN/PREDPP; z3 decides for all thetas, etas, epsilons, data items and amounts that every variable (incl. F, Y) '
+    'and every dA/dt agree (compartments matched by dynamics); parameters and covariance structure are compared exactly.',
+    'Trusted: lib/nmref.py (reference semantics, DESIGN.md Appendix A; agrees with pharmpy on the whole readable corpus), '
+    'sympy->z3 translation with uninterpreted exp/log (sound for equivalence; sat models replayed numerically). '
+    'Programs outside the reference subset are skipped and counted.',
+    'z3 equivalence between pharmpy model IR and an independent NM-TRAN reference semantics (translation validation)',
+    'DESIGN.md section 3 C01', 'E2')
+
+chk('C02', 'translation_validation',
+    'For each start model and each history of public transformations within the bound (all length<=1 from 6 start '
+    'models, length 2 from two, 22-op alphabet) pharmpy generates code; the reference semantics interprets the '
+    'GENERATED code and z3 decides for all numeric inputs that it denotes the in-memory model (statements, dA/dt under '
+    'the numbering the code defines, lag/bioavailability, dose compartment, parameters, covariance structure); the '
+    'written-and-re-read model is compared with the in-memory one the same way.',
+    'Trusted: lib/nmref.py; positional THETA/ETA/EPS correspondence; write_model/read_model run concretely in a temp '
+    'directory. Histories are enumerated, numeric inputs solver-decided. Known code-generation defects are listed in '
+    'known_findings.json by (history pattern, obligation).',
+    'z3 equivalence between generated NM-TRAN code (reference semantics) and the model IR; read-back equivalence',
+    'DESIGN.md section 3 C02', 'E2')
+
+chk('C07', 'translation_validation',
+    'For corpus models and reachable variants x 12 refactorings (mu-referencing, declarative, cleanup, greekify, rename, '
+    'remove unused, join/split distributions, replace fixed thetas / non-random rvs, convert to generic, unload/load '
+    'dataset) z3 decides for all inputs within parameter bounds that every commonly defined variable, every dA/dt and '
+    'the dose attachments are unchanged up to the declared renaming; solve_ode_system by substitution into the ODE; '
+    'prediction / gradient extractors against symbolic derivatives of the model function.',
+    'Trusted: reference interpretation of model.statements (lib/semeq.py); uninterpreted exp/log with sound axioms; '
+    'numeric replay of sat models. The pandas-based numeric evaluators are outside the claim.',
+    'z3 equivalence of model functions before/after each refactoring (translation validation)',
+    'DESIGN.md section 3 C07', 'E2')
+
 NA['C14'] = ('derivations are vectorised pandas pipelines (groupby/cumsum/explode/query); CrossHair realises at the '
              'first DataFrame call and no faithful SMT semantics of pandas exists here; solver-generated datasets '
              'would be sampling')
